@@ -11,7 +11,7 @@ import asn1crypto.core
 
 from cryptodatahub.common.exception import InvalidValue
 
-from cryptoparser.common.exception import NotEnoughData
+from cryptoparser.common.exception import InvalidType, NotEnoughData
 from cryptoparser.common.parse import ParsableBase
 
 
@@ -162,6 +162,8 @@ class LDAPMessageParsableBase(ParsableBase):
                 six.raise_from(NotEnoughData(bytes_requested - bytes_available), e)
             else:
                 six.raise_from(InvalidValue(parsable, cls), e)
+        except KeyError as e:  # enumerated value without a name, e.g. an unassigned result code
+            six.raise_from(InvalidValue(parsable, cls), e)
 
         return message
 
@@ -170,6 +172,8 @@ class LDAPExtendedRequestStartTLS(LDAPMessageParsableBase):
     @classmethod
     def _parse(cls, parsable):
         asn1_message = cls._parse_asn1(parsable)
+        if asn1_message['protocolOp'].name != 'extendedReq':
+            raise InvalidType()
 
         return LDAPExtendedRequestStartTLS(), len(asn1_message.dump())
 
@@ -191,6 +195,8 @@ class LDAPExtendedResponseStartTLS(LDAPMessageParsableBase):
     @classmethod
     def _parse(cls, parsable):
         asn1_message = cls._parse_asn1(parsable)
+        if asn1_message['protocolOp'].name != 'extendedResp':
+            raise InvalidType()
 
         return LDAPExtendedResponseStartTLS(
             asn1_message['protocolOp'].chosen['resultCode'].native
